@@ -47,7 +47,7 @@ class Runner:
 
     def row(self):
         self.counter += 1
-        return [float(self.counter * 10 + j) for j in range(self.width)]
+        return [self.counter * 10 + j + 0.25 for j in range(self.width)]  # fractional values: an integer-typed copy of the storage loses them
 
     def vio(self, sig, msg):
         self.vios.append(('C18:' + sig, msg))
